@@ -188,7 +188,7 @@ def run(ctx):
     exe = dv.build_harness('h_arena', ['h_arena.cpp'], need_lib=False, extra_flags=['-fsanitize=address'])
     ctx.phase('build')
     r = ctx.rng
-    nseq = 300 if ctx.quick else 5000
+    nseq = 240 if ctx.quick else 5000
     nmt = 24 if ctx.quick else 300
     fixed = [WITNESS,
              'seq 2 N 0 2 0 C 1 0',                               # a fresh arena already has 1 buffer in a table of 2
@@ -239,9 +239,9 @@ def run(ctx):
         return
     hist = {0: 0, 1: 0, 2: 0, 4: 0}
     distinct = set()
-    for i, (c, o, v) in enumerate(zip(seq_cases, outs, verd_seq)):
+    for i, (c, o, vv) in enumerate(zip(seq_cases, outs, verd_seq)):
+        v, ndone = vv % 10, vv // 10          # ndone = index of the failing operation (verdicts 2 and 4)
         hist[v] = hist.get(v, 0) + 1
-        ndone, crashed = info[i]
         if ' G ' in c and (' C ' in c or ' A ' in c or ' S ' in c or ' V ' in c or ' M ' in c):
             distinct.add(c)
         cmd = 'echo "%s" | H_VERBOSE=1 build/harness/h_arena-*' % c
@@ -249,7 +249,7 @@ def run(ctx):
             ctx.violation('copy of an arena whose buffer table is not full (buffersPos_ < buffersSize_) reads an uninitialised table entry: %s -> %s'
                           % (c, (o or '')[-120:]), {'finding_key': KEY, 'case': c, 'output': o, 'cmd': cmd, 'failed_at_op': ndone})
         elif v == 2:
-            ctx.violation('ConcurrentObjectArena: operation %d of "%s" violates the property (size/contents/default-construction/stability) or crashed: %s'
+            ctx.violation('ConcurrentObjectArena: operation #%d (0-based) of "%s" violates the property (size/contents/default-construction/stability) or crashed: %s'
                           % (ndone, c, (o or '')[-300:]), {'case': c, 'output': o, 'cmd': cmd, 'failed_at_op': ndone})
         elif v == 1:
             ctx.broken.append('correspondence D(C37): implementation differs from the model on "%s": %s' % (c, (o or '')[:300]))
